@@ -21,7 +21,7 @@ CFG = dict(
                  "6": "incomplete scenario (the rig could not bring every handler to return)"},
     rule="lock-step in synctest bubbles on the real goat.Server.Serve (scripted transport, handler bodies gated by the schedule): base "
          "conversations with 0..2 (thorough 0..3) unary x 0..2 (0..3) stream handlers in flight x handlers parked in {RecvMsg, SendMsg "
-         "against a blocked transport, <-ctx.Done(), their body, after response envelopes} x trigger in {transport read failure, "
+         "against a blocked transport, <-ctx.Done(), their body, after response envelopes} x trigger in {transport read failure (also queued directly behind an envelope; error values: plain, a genuine protobuf decode error, goat's non-binary-websocket-message error obtained from the real transport, net timeout, unexpected EOF, EOF, each bare and wrapped, persistent and once-then-silence), "
          "transport write failure (plain error, and errors wrapping context.DeadlineExceeded / context.Canceled / io.EOF), Server.Stop} inserted at EVERY position of the base conversation; handlers return when their context "
          "is done; at the end every handler returns. Also 8 / 9 unary handlers (all workers busy, the 9th request parks the read loop; "
          "thorough: 8+8, 9+8) and seeded random walks with transport faults followed by the trigger. The rig runs as 8 parallel child processes; a process death or a wedge is re-run alone and, if it persists, recorded as a failing case (reasons 7 / 8). Observed after every action: "
